@@ -623,7 +623,7 @@ func genC16(t *rapid.T) c16Case {
 
 func TestVerifC16Traces(t *testing.T) {
 	log.SetOutput(io.Discard)
-	u := vk.Unit{Property: "C16", Name: "c16.traces", Quick: 350, Thorough: 20000,
+	u := vk.Unit{Property: "C16", Name: "c16.traces", Quick: 2400, Thorough: 20000,
 		Rule: "traces of up to 14 steps over {register, register-again, unregister, retry tick with scripted outcome (succeeds / fails-retry / fails-no-retry), peer-disappeared, restart} for 1..3 adapters (senders/receivers, permanent or not) and retry budget 0..3, closed by Manager.Close; the real Manager.handler runs with a 4 ms retry interval and every adapter Start blocks at a gate until the harness supplies the scripted outcome; oracle = reference state machine fed by the observed Start/Close calls: legal starts only, Sender()/Receiver() == model's active set after every step, waiting adapters get their next Start, exhausted ones are forgotten, one Close per successful Start, Close returns; non-trivial = trace with >= 1 failing start; distinct by case hash"}
 	vk.Check(t, u, genC16, c16Run)
 }
